@@ -145,8 +145,8 @@ CLAIMS['C27'] = dict(engine='rtc (E3)', category='exploration',
          'including left-handed and non-diagonal supercell matrices and in-place edit histories.',
     note='Catalogue crystals x seeded supercell matrices.')
 
-CLAIMS['C16'] = dict(engine='rtc (E3)', category='exploration',
-    technique='run-time postconditions V(result) = op(V(operands)) with frame / no-aliasing clauses on every Taylor3D/Taylor2D operation against an independently written evaluator; index tables decided exhaustively for the fixed Lmax against scipy harmonics; bounded stand-in',
+CLAIMS['C16'] = dict(engine='symbolic execution of the real methods on sympy coefficient arrays (E4) + rtc (E3)', category='exploration',
+    technique='symbolic-bounded: the real sumcoeff/coeffproductcoeff/tensorproductcoeff/scalarproductcoeff/truncate/slice methods run on symbolic coefficient arrays, postcondition decided as a polynomial identity by sympy for every operand structure with l = 0..4 and up to two terms; plus run-time postconditions V(result) = op(V(operands)) with frame / no-aliasing clauses on every Taylor3D/Taylor2D operation against an independently written evaluator; index tables decided exhaustively for the fixed Lmax against scipy harmonics; bounded stand-in',
     text='Bounded: sum, difference, negation, scalar / dictionary / matrix products, products of expansions, slices and slice assignment, truncation, reduction, collection, separation, in-place forms and '
          'construction from direction/matrix pairs commute with evaluation at sampled points for random expansions (n in -2..4, l <= 4, four value shapes), operands keep their values and share no storage with results; '
          'all index tables are checked exhaustively for Lmax = 4.',
